@@ -137,7 +137,8 @@ func (fields List) Set(field Field) List {
 				return List{delfield(b, s, i)}
 			}
 			prev := bfield(name, kind, data)
-			if prev.Value().Equals(field.Value()) {
+			if prev.Value().Equals(field.Value()) &&
+				prev.Value().Data() == field.Value().Data() {
 				// no change
 				return fields
 			}
